@@ -867,6 +867,183 @@ Proof.
   specialize (T2 l2 t2 eq_refl). split; [reflexivity|]. intros l t [= _ <-]. cbn [length]. lia.
 Qed.
 
+(* ---- Byron main blocks ---- *)
+Lemma raw_list_elem bs l b : all_bytes bs -> raw_list bs = Some l -> In b l -> all_bytes b /\ (length b <= length bs)%nat.
+Proof.
+  intros Hb R Hin. destruct (raw_list_sound bs l Hb R) as (F & S1 & _). split.
+  - eapply Forall_forall in F; eauto.
+  - pose proof (sum_len_in l b Hin). lia.
+Qed.
+
+Lemma byron_output_offsets_spec body bo : all_bytes body ->
+  isval (byron_output_offsets body bo) = true /\
+  forall es t, byron_output_offsets body bo = Val (es, t) -> (t <= length body)%nat.
+Proof.
+  intros Hb. unfold byron_output_offsets.
+  destruct (Nat.ltb (length body) 2); [split; [reflexivity|intros es t [= _ <-]; lia]|].
+  destruct (raw_list body) as [parts|] eqn:R; [|split; [reflexivity|intros es t [= _ <-]; lia]].
+  destruct (Nat.ltb_spec (length parts) 2) as [L2|L2]; [split; [reflexivity|intros es t [= _ <-]; lia]|].
+  destruct parts as [|p0 [|p1 pr]]; cbn [length] in L2; try lia.
+  destruct (raw_list_elem body (p0 :: p1 :: pr) p1 Hb R) as [B1 L1]; [right; left; reflexivity|].
+  destruct (raw_list p1) as [outs|] eqn:R1; [|split; [reflexivity|intros es t [= _ <-]; lia]].
+  destruct (Nat.eqb (length outs) 0); [split; [reflexivity|intros es t [= _ <-]; lia]|].
+  destruct (array_header_size_of_val body (length (p0 :: p1 :: pr))) as (bh & ->). cbn [bind].
+  destruct (array_header_size_of_val p1 (length outs)) as (oh & ->). cbn [bind].
+  split; [reflexivity|]. intros es t [= _ <-].
+  destruct (raw_list_sound p1 outs B1 R1) as (_ & S1 & S2). lia.
+Qed.
+
+Lemma byron_pairs_spec : forall pairs pos, Forall all_bytes pairs ->
+  bad (byron_pairs pairs pos) = false /\
+  forall l t, byron_pairs pairs pos = Val (l, t) -> (t <= length pairs + sum_len pairs)%nat.
+Proof.
+  induction pairs as [|raw r IH]; intros pos Hb; cbn [byron_pairs].
+  { split; [reflexivity|]. intros l t [= _ <-]. cbn. lia. }
+  inversion Hb as [|? ? Hb1 Hb2]; subst.
+  assert (Es : (sum_len (raw :: r) = length raw + sum_len r)%nat) by reflexivity.
+  destruct (raw_list raw) as [tx_pair|] eqn:R; [|split; [reflexivity|discriminate]].
+  destruct (Nat.ltb_spec (length tx_pair) 2) as [L2|L2]; [split; [reflexivity|discriminate]|].
+  destruct tx_pair as [|b [|w pr]]; cbn [length] in L2; try lia.
+  destruct (raw_list_elem raw (b :: w :: pr) b Hb1 R) as [Bb Lb]; [left; reflexivity|].
+  destruct (array_header_size_of_val raw (length (b :: w :: pr))) as (ph & ->). cbn [bind].
+  destruct (byron_output_offsets_spec b (u32 (pos + ph)) Bb) as [B T].
+  destruct (byron_output_offsets b (u32 (pos + ph))) as [[o t1]| | |]; try discriminate. cbn [bind].
+  specialize (T o t1 eq_refl).
+  destruct (IH (u32 (pos + u32 (nlen raw))) Hb2) as [B2 T2].
+  destruct (byron_pairs r (u32 (pos + u32 (nlen raw)))) as [[l2 t2]| | |]; try discriminate; cbn [bind fst snd];
+    [|split; [reflexivity|discriminate]].
+  specialize (T2 l2 t2 eq_refl). split; [reflexivity|]. intros l t [= _ <-]. cbn [length]. lia.
+Qed.
+
+Lemma byron_offsets_spec data blk : all_bytes data -> raw_list data = Some blk -> (3 <= length blk)%nat ->
+  bad (byron_offsets data blk) = false /\
+  forall txs t, byron_offsets data blk = Val (XDone txs t) -> (t <= 2 * length data)%nat.
+Proof.
+  intros Hb R L3. unfold byron_offsets.
+  destruct blk as [|b0 [|b1 br]]; cbn [length] in L3; try lia.
+  destruct (raw_list_elem data (b0 :: b1 :: br) b1 Hb R) as [B1 L1]; [right; left; reflexivity|].
+  destruct (array_header_size_of_val data (length (b0 :: b1 :: br))) as (ahs & ->). cbn [bind].
+  destruct (raw_list b1) as [parts|] eqn:R1; [|split; [reflexivity|discriminate]].
+  destruct (Nat.eqb_spec (length parts) 4) as [L4|L4]; cbn [negb]; [|split; [reflexivity|discriminate]].
+  destruct parts as [|p0 pr]; cbn [length] in L4; try lia.
+  destruct (raw_list_elem b1 (p0 :: pr) p0 B1 R1) as [B0 L0]; [left; reflexivity|].
+  destruct (raw_list p0) as [payload|] eqn:R0; [|split; [reflexivity|discriminate]].
+  destruct (Nat.eqb (length payload) 0); [split; [reflexivity|intros txs t [= _ <-]; lia]|].
+  destruct (array_header_size_of_val b1 (length (p0 :: pr))) as (bah & ->). cbn [bind].
+  destruct (array_header_size_of_val p0 (length payload)) as (ph & ->). cbn [bind].
+  destruct (raw_list_sound p0 payload B0 R0) as (FP & S1 & S2).
+  destruct (byron_pairs_spec payload (u32 (u32 (u32 (ahs + u32 (nlen b0)) + bah) + ph)) FP) as [B T].
+  destruct (byron_pairs payload (u32 (u32 (u32 (ahs + u32 (nlen b0)) + bah) + ph))) as [[l t]| | |]; try discriminate; cbn [bind fst snd];
+    [|split; [reflexivity|discriminate]].
+  specialize (T l t eq_refl). split; [reflexivity|]. intros txs t' [= _ <-]. lia.
+Qed.
+
+(* ---- Dijkstra blocks ---- *)
+Lemma info_ok_spec data n : bad (info_ok data n) = false /\ forall hs, info_ok data n = Val hs -> (1 <= hs <= length data)%nat.
+Proof.
+  unfold info_ok, array_info. destruct (info_spec 128 data) as (c & h & ind & -> & Hh). cbn [bind].
+  destruct (info_invalid (c, h, ind)); [split; [reflexivity|discriminate]|]. specialize (Hh eq_refl).
+  destruct (negb ind && negb (count_of c =? n)); (split; [reflexivity|]); [discriminate|]. intros hs [= <-]. exact Hh.
+Qed.
+
+Lemma sd_raw_spec stream pos : (pos <= length stream)%nat ->
+  bad (sd_raw stream pos) = false /\
+  forall s p, sd_raw stream pos = Val (s, p) ->
+    (pos < p <= length stream)%nat /\ (length s = p - pos)%nat /\ (all_bytes stream -> all_bytes s).
+Proof.
+  intros Hp. unfold sd_raw. destruct (sd_skip stream pos) as [[u n]|] eqn:E; [|split; [reflexivity|discriminate]].
+  apply sd_val_bounds in E. rewrite slice_ok by lia. cbn [bind]. split; [reflexivity|].
+  intros s p [= <- <-]. split; [lia|]. split.
+  - rewrite firstn_length, skipn_length. lia.
+  - intros Hb. apply all_bytes_firstn, all_bytes_skipn. exact Hb.
+Qed.
+
+Lemma dijkstra_txs_spec fuel stream base : (length stream < fuel)%nat -> forall txs pos, (pos <= length stream)%nat ->
+  bad (dijkstra_txs fuel txs stream pos base) = false /\
+  (all_bytes stream -> forall l t, dijkstra_txs fuel txs stream pos base = Val (l, t) ->
+     (t <= length txs + 3 * (length stream - pos))%nat).
+Proof.
+  intros Hf. induction txs as [|x r IH]; intros pos Hp; cbn [dijkstra_txs].
+  { split; [reflexivity|]. intros _ l t [= _ <-]. cbn. lia. }
+  destruct (sd_raw_spec stream pos Hp) as [B0 R0].
+  destruct (sd_raw stream pos) as [[raw_tx pos']| | |]; try discriminate; cbn [bind]; [|split; [reflexivity|intros; discriminate]].
+  destruct (R0 raw_tx pos' eq_refl) as (P0 & L0 & A0).
+  destruct (raw_list raw_tx) as [parts|]; [|split; [reflexivity|intros; discriminate]].
+  destruct (negb (Nat.eqb (length parts) 3)); [split; [reflexivity|intros; discriminate]|].
+  destruct (info_ok_spec raw_tx 3) as [B1 R1].
+  destruct (info_ok raw_tx 3) as [ths| | |]; try discriminate; cbn [bind]; [|split; [reflexivity|intros; discriminate]].
+  specialize (R1 ths eq_refl). rewrite slice_from_ok by lia. cbn [bind].
+  set (st := skipn ths raw_tx). assert (Ls : (length st = length raw_tx - ths)%nat) by apply skipn_length.
+  destruct (sd_raw_spec st 0) as [B2 R2]; [lia|].
+  destruct (sd_raw st 0) as [[body p1]| | |]; try discriminate; cbn [bind]; [|split; [reflexivity|intros; discriminate]].
+  destruct (R2 body p1 eq_refl) as (P1 & L1 & A1).
+  destruct (sd_raw_spec st p1) as [B3 R3]; [lia|].
+  destruct (sd_raw st p1) as [[wit p2]| | |]; try discriminate; cbn [bind]; [|split; [reflexivity|intros; discriminate]].
+  destruct (R3 wit p2 eq_refl) as (P2 & L2 & A2).
+  destruct (sd_raw_spec st p2) as [B4 R4]; [lia|].
+  destruct (sd_raw st p2) as [[aux p3]| | |]; try discriminate; cbn [bind]; [|split; [reflexivity|intros; discriminate]].
+  destruct (R4 aux p3 eq_refl) as (P3 & L3 & A3).
+  assert (NULL : exists b, (if Nat.eqb (length aux) 1 then x <- idx aux 0 ;; Val (x =? 246) else Val false) = Val b).
+  { destruct (Nat.eqb_spec (length aux) 1) as [La|La]; [|eauto]. destruct (idx_lt aux 0) as (x0 & ->); [lia|]. cbn [bind]. eauto. }
+  destruct NULL as (is_null & ->). cbn [bind].
+  set (tx_pos := u32 (base + N.of_nat pos)).
+  destruct (output_offsets_spec true fuel body (u32 (tx_pos + N.of_nat ths))) as [B5 T5]; [lia|].
+  destruct (output_offsets true fuel body (u32 (tx_pos + N.of_nat ths))) as [[o t1]| | |]; try discriminate. cbn [bind].
+  destruct (witness_components_spec fuel wit (u32 (tx_pos + N.of_nat ths + N.of_nat p1))) as [B6 T6]; [lia|].
+  destruct (witness_components fuel wit (u32 (tx_pos + N.of_nat ths + N.of_nat p1))) as [[c t2]| | |]; try discriminate. cbn [bind].
+  destruct (IH pos') as [B7 T7]; [lia|].
+  destruct (dijkstra_txs fuel r stream pos' base) as [[l2 t3]| | |]; try discriminate; cbn [bind fst snd];
+    [|split; [reflexivity|intros; discriminate]].
+  split; [reflexivity|]. intros Hb l t [= _ <-].
+  assert (Ast : all_bytes st) by (apply all_bytes_skipn, A0, Hb).
+  specialize (T5 (A1 Ast) o t1 eq_refl). specialize (T6 (A2 Ast) c t2 eq_refl). specialize (T7 Hb l2 t3 eq_refl).
+  cbn [length]. lia.
+Qed.
+
+Lemma dijkstra_offsets_spec fuel data blk : all_bytes data -> (length data < fuel)%nat ->
+  bad (dijkstra_offsets fuel data blk) = false /\
+  forall txs t, dijkstra_offsets fuel data blk = Val (XDone txs t) -> (t <= 4 * length data)%nat.
+Proof.
+  intros Hb Hf. unfold dijkstra_offsets.
+  destruct (Nat.eqb_spec (length blk) 2) as [L2|L2]; cbn [negb]; [|split; [reflexivity|discriminate]].
+  destruct (info_ok_spec data 2) as [B1 R1].
+  destruct (info_ok data 2) as [top_hs| | |]; try discriminate; cbn [bind]; [|split; [reflexivity|discriminate]].
+  specialize (R1 top_hs eq_refl).
+  destruct blk as [|b0 [|b1 br]]; cbn [length] in L2; try lia.
+  destruct (raw_list b1) as [parts|]; [|split; [reflexivity|discriminate]].
+  destruct (negb (Nat.eqb (length parts) 4)); [split; [reflexivity|discriminate]|].
+  rewrite slice_from_ok by lia. cbn [bind].
+  set (st := skipn top_hs data). assert (Ls : (length st = length data - top_hs)%nat) by apply skipn_length.
+  assert (Ast : all_bytes st) by (apply all_bytes_skipn; exact Hb).
+  destruct (sd_skip st 0) as [[u hl]|] eqn:E; [|split; [reflexivity|discriminate]].
+  apply sd_val_bounds in E.
+  destruct (sd_raw_spec st hl) as [B2 R2]; [lia|].
+  destruct (sd_raw st hl) as [[body_raw p1]| | |]; try discriminate; cbn [bind]; [|split; [reflexivity|discriminate]].
+  destruct (R2 body_raw p1 eq_refl) as (P1 & Lb & Ab). specialize (Ab Ast).
+  destruct (info_ok_spec body_raw 4) as [B3 R3].
+  destruct (info_ok body_raw 4) as [bhs| | |]; try discriminate; cbn [bind]; [|split; [reflexivity|discriminate]].
+  specialize (R3 bhs eq_refl). rewrite slice_from_ok by lia. cbn [bind].
+  set (bst := skipn bhs body_raw). assert (Lbs : (length bst = length body_raw - bhs)%nat) by apply skipn_length.
+  assert (Abst : all_bytes bst) by (apply all_bytes_skipn; exact Ab).
+  destruct (sd_skip bst 0) as [[u2 il]|] eqn:E2; [|split; [reflexivity|discriminate]].
+  apply sd_val_bounds in E2.
+  destruct (sd_raw_spec bst il) as [B4 R4]; [lia|].
+  destruct (sd_raw bst il) as [[txs_raw p2]| | |]; try discriminate; cbn [bind]; [|split; [reflexivity|discriminate]].
+  destruct (R4 txs_raw p2 eq_refl) as (P2 & Lt & At). specialize (At Abst).
+  destruct (raw_list txs_raw) as [txs|] eqn:Rt; [|split; [reflexivity|discriminate]].
+  destruct (Nat.eqb (length txs) 0); [split; [reflexivity|intros l t [= _ <-]; lia]|].
+  destruct (info_ok_spec txs_raw (N.of_nat (length txs))) as [B5 R5].
+  destruct (info_ok txs_raw (N.of_nat (length txs))) as [ths| | |]; try discriminate; cbn [bind]; [|split; [reflexivity|discriminate]].
+  specialize (R5 ths eq_refl). rewrite slice_from_ok by lia. cbn [bind].
+  set (tst := skipn ths txs_raw). assert (Lts : (length tst = length txs_raw - ths)%nat) by apply skipn_length.
+  set (base := u32 (u32 (u32 (N.of_nat top_hs + N.of_nat hl) + N.of_nat bhs + N.of_nat il) + N.of_nat ths)).
+  destruct (dijkstra_txs_spec fuel tst base) with (txs := txs) (pos := 0%nat) as [B6 T6]; [lia|lia|].
+  destruct (dijkstra_txs fuel txs tst 0 base) as [[l t]| | |]; try discriminate; cbn [bind fst snd]; [|split; [reflexivity|discriminate]].
+  split; [reflexivity|]. intros l' t' [= _ <-].
+  specialize (T6 (all_bytes_skipn _ _ At) l t eq_refl).
+  destruct (raw_list_sound txs_raw txs At Rt) as (_ & S1 & S2). lia.
+Qed.
+
 (* ---- ExtractTransactionOffsets / DecodeWithOffsets ---- *)
 Lemma extract_offsets_spec streaming fuel data : all_bytes data -> (length data < fuel)%nat ->
   bad (extract_offsets streaming fuel data) = false /\
@@ -875,9 +1052,11 @@ Proof.
   intros Hb Hf. unfold extract_offsets.
   destruct (raw_list data) as [blk|] eqn:R; [|split; [reflexivity|discriminate]].
   destruct (raw_list_sound data blk Hb R) as (Fb & S1 & S2).
-  destruct (negb streaming && is_dijkstra_block blk); [split; [reflexivity|discriminate]|].
+  destruct (negb streaming && is_dijkstra_block blk).
+  { destruct (dijkstra_offsets_spec fuel data blk Hb Hf) as [B T]. split; [exact B|]. intros txs t E. specialize (T txs t E). lia. }
   destruct (Nat.ltb_spec (length blk) 3); [split; [reflexivity|intros txs t [= _ <-]; lia]|].
-  destruct (is_byron_block blk); [split; [reflexivity|discriminate]|].
+  destruct (is_byron_block blk).
+  { destruct (byron_offsets_spec data blk Hb R) as [B T]; [lia|]. split; [exact B|]. intros txs t E. specialize (T txs t E). lia. }
   destruct (Nat.ltb_spec (length blk) 4) as [L4|L4]; [split; [reflexivity|intros txs t [= _ <-]; lia]|].
   rewrite slice_from_ok by lia. cbn [bind skipn].
   destruct (array_header_size_of_val data (length blk)) as (ahs & ->). cbn [bind].
